@@ -204,7 +204,11 @@ def run_shard(acc, shard, nshards, seed, tier):
     mins = (60, 180) if tier == 'quick' else (60, 400)
     fam = [('declarative', sessions.session(minutes=mins, max_data=0, warmup=(False,), align_len=True, program=dict(busy=True, oversize=True))),
            ('flips', sessions.session(minutes=mins, kinds=('futures',), max_data=0, warmup=(False,), align_len=True, max_symbols=1,
-                                      program=dict(busy=True, flips=True)))]
+                                      program=dict(busy=True, flips=True))),
+           # held, highly leveraged isolated-margin positions: the cycle is ended by the simulator's own liquidation order
+           ('liquidations', sessions.session(minutes=mins, kinds=('futures',), modes=('isolated',), leverages=(10, 20, 50, 100, 125), max_data=0,
+                                             fees=(0.0004, 0.001, 0.0075, 0.0), warmup=(False,), align_len=True, structural=False,
+                                             program=dict(busy=True, hold=True, cycle=True)))]
     for name, sess in fam:
         def chk(spec, name=name):
             vios, stats, r = run_case(spec)
@@ -217,5 +221,5 @@ def run_shard(acc, shard, nshards, seed, tier):
                         sample=dict(cfg=spec['cfg'], routes=spec['routes'], fast=spec['fast'], minutes=spec['n'], fills=stats['fills'],
                                     trades=(r['final'] or {}).get('trades', [])[:2]) if nt else None)
         runner.hyp_search(acc, sess, chk, (40 if name == 'declarative' else 12) if tier == 'quick' else (2000 if name == 'declarative' else 500),
-                          seed + (0 if name == 'declarative' else 7), tier, known=known, shrink_calls=25, max_shrink_sigs=2,
+                          seed + {'declarative': 0, 'flips': 7, 'liquidations': 13}[name], tier, known=known, shrink_calls=25, max_shrink_sigs=2,
                           describe=lambda spec: dict(spec=spec))
